@@ -182,17 +182,17 @@ func lintDeterminism(c *Ctx, m *Model, g *Graph, fn *ssa.Function, total map[str
 				if x.Op == token.ARROW {
 					c.Violate("C10.D3", fk+"#recv", p.Pos(x.Pos()), "channel receive in the consensus closure", nil)
 				}
-				if isFloat(x.Type()) && x.Op != token.MUL {
-					c.Violate("C10.D6", fk+"#float", p.Pos(x.Pos()), "floating-point operation in the consensus closure", nil)
+				if isFloat(x.Type()) && x.Op != token.MUL && !flowsOnlyToTelemetry(x) {
+					c.Violate("C10.D6", fk+"#float", p.Pos(x.Pos()), "floating-point operation in the consensus closure whose result is used for more than telemetry", nil)
 				}
 			case *ssa.BinOp:
-				if isFloat(x.X.Type()) || isFloat(x.Y.Type()) {
-					c.Violate("C10.D6", fk+"#float", p.Pos(x.Pos()), "floating-point arithmetic in the consensus closure", nil)
+				if (isFloat(x.X.Type()) || isFloat(x.Y.Type())) && !(isFloat(x.Type()) && flowsOnlyToTelemetry(x)) {
+					c.Violate("C10.D6", fk+"#float", p.Pos(x.Pos()), "floating-point arithmetic in the consensus closure whose result is used for more than telemetry", nil)
 				}
 			case *ssa.Convert:
 				if isFloat(x.Type()) || isFloat(x.X.Type()) {
-					if _, isConst := x.X.(*ssa.Const); !isConst {
-						c.Violate("C10.D6", fk+"#floatconv", p.Pos(x.Pos()), "conversion to/from floating point in the consensus closure", nil)
+					if _, isConst := x.X.(*ssa.Const); !isConst && !(isFloat(x.Type()) && flowsOnlyToTelemetry(x)) {
+						c.Violate("C10.D6", fk+"#floatconv", p.Pos(x.Pos()), "conversion to/from floating point in the consensus closure (the value is used for more than telemetry)", nil)
 					}
 				}
 			case *ssa.Store:
@@ -459,17 +459,48 @@ func persistentRefs(fn *ssa.Function) map[ssa.Value]string {
 }
 
 func flowsOnlyToTelemetry(v ssa.Value) bool {
+	return onlyTelemetry(v, map[ssa.Value]bool{})
+}
+
+// onlyTelemetry: every use of v is an argument of a cosmos-sdk telemetry / go-metrics call, possibly after
+// floating-point arithmetic or conversion *to* floating point (a counter value, a duration in seconds).
+// A value that is stored, returned, compared, converted back to an integer or string, or handed to
+// anything else is not telemetry-only.
+func onlyTelemetry(v ssa.Value, seen map[ssa.Value]bool) bool {
+	if seen[v] {
+		return true
+	}
+	seen[v] = true
 	refs := v.Referrers()
-	if refs == nil || len(*refs) == 0 {
+	if refs == nil {
 		return true
 	}
 	for _, r := range *refs {
-		ci, ok := r.(ssa.CallInstruction)
-		if !ok {
-			return false
-		}
-		pkg, _ := calleePkgName(ci.Common())
-		if !strings.HasSuffix(pkg, "cosmos-sdk/telemetry") {
+		switch y := r.(type) {
+		case *ssa.DebugRef:
+			continue
+		case ssa.CallInstruction:
+			pkg, _ := calleePkgName(y.Common())
+			if !strings.HasSuffix(pkg, "cosmos-sdk/telemetry") && !strings.HasSuffix(pkg, "armon/go-metrics") && !strings.HasSuffix(pkg, "hashicorp/go-metrics") {
+				return false
+			}
+		case *ssa.BinOp:
+			if !isFloat(y.Type()) || !onlyTelemetry(y, seen) {
+				return false
+			}
+		case *ssa.UnOp:
+			if !isFloat(y.Type()) || !onlyTelemetry(y, seen) {
+				return false
+			}
+		case *ssa.Convert:
+			if !isFloat(y.Type()) || !onlyTelemetry(y, seen) {
+				return false
+			}
+		case *ssa.Phi:
+			if !isFloat(y.Type()) || !onlyTelemetry(y, seen) {
+				return false
+			}
+		default:
 			return false
 		}
 	}
